@@ -34,7 +34,8 @@ theorem C09_order (ops : List Op) (k : Nat) (h : k < ops.length) :
 theorem C09_kind (idx : Nat) (op : Op) :
     (classify idx (register op)).isAsync =
       (match op with
-       | .enterAsyncContext _ | .pushAsyncExitManager _ | .pushAsyncExitFunction _ | .pushAsyncCallback _ => true
+       | .enterAsyncContext _ | .pushAsyncExitManager _ | .pushAsyncExitFunction _ | .pushAsyncCallback _
+       | .enterAsyncContextAliased _ => true
        | _ => false) := by
   cases op <;> rfl
 
@@ -45,6 +46,18 @@ theorem C09_manager_is_obj (idx : Nat) (m : Obj) :
     ∧ (classify idx (register (.pushManager m))).obj = .manager m
     ∧ (classify idx (register (.enterAsyncContext m))).obj = .manager m
     ∧ (classify idx (register (.pushAsyncExitManager m))).obj = .manager m := ⟨rfl, rfl, rfl, rfl⟩
+
+/-- F22, repaired: a pushed callable is never mistaken for a manager's exit because it merely has a `__self__`
+(a builtin function's `__self__` is its module; a builtin bound method is a pushed method), and a manager whose
+exit method goes by another name is still reported as entered. -/
+theorem C09_F22_repaired (idx : Nat) (x : Obj) :
+    (classify idx (register (.pushBuiltinFunction x))).obj = .callable (.builtinFunction x)
+    ∧ (classify idx (register (.pushBuiltinFunction x))).method = .push
+    ∧ (classify idx (register (.pushBuiltinBound x))).method = .push
+    ∧ (classify idx (register (.enterContextAliased x))).method = .enterContext
+    ∧ (classify idx (register (.enterContextAliased x))).obj = .manager x
+    ∧ (classify idx (register (.enterAsyncContextAliased x))).method = .enterAsyncContext
+    ∧ (classify idx (register (.enterAsyncContextAliased x))).awaitTag = true := ⟨rfl, rfl, rfl, rfl, rfl, rfl, rfl⟩
 
 /-- **C09_exiting**: the generator-based glue's elaborate hook sets `inner_stack` exactly when the manager
 is not exiting (its frames then appear in the main frame series instead, C03); the description is set
